@@ -57,10 +57,14 @@ def run(prog, ctx):
         wk = [k for k in lv if k.startswith("len(") and "bit_array" in k]
         n_i += 1
         res.obligations += 2
+        if h0 and h1 and ik and not wk and sym.contains(e, lambda t: t[0] == "call" and t[1] in prog.fns):
+            # the derivation sits in a helper with branches of its own (a power-of-two fast path): it is evaluated through the
+            # helper's return expression, which reads the word count off `self`
+            wk = ["len(self.bit_array)"]
         if not (h0 and h1 and ik and wk):
             res.undecided += 2
             continue
-        envs = [{h0[0]: rnd.getrandbits(64), h1[0]: rnd.getrandbits(64), ik[0]: i, wk[0]: w} for i in (1, 2, 3, 7, 16, 300) for w in (1, 2, 3, 157, 1024, 33333)]
+        envs = [{h0[0]: rnd.getrandbits(64), h1[0]: rnd.getrandbits(64), ik[0]: i, wk[0]: w, "@prog": prog} for i in (1, 2, 3, 7, 16, 300) for w in (1, 2, 3, 157, 1024, 33333)]
         M = (1 << 64) - 1
         ok, cex, n, why = formula.equivalent(e, lambda env: (((env[h0[0]] + env[ik[0]] * env[h1[0]]) & M) >> 1) % (64 * env[wk[0]]), envs)
         if ok:
